@@ -60,11 +60,11 @@ def tb(x):
 class Check(CheckBase):
     pid = "C15"
     title = "firmware version gating"
-    bounds = {"quick": {"version": "three components, digit counts (1,1,1), (1,2,1), (2,1,2); every digit symbolic 0-9",
+    bounds = {"quick": {"version": "three components, digit counts (1,1,1), (1,2,1), (2,1,2), (1,1,3), (1,3,1); every digit symbolic 0-9",
                         "thresholds": ", ".join(THRESHOLDS), "handshake": "each probe: empty / non-EBB text / EBB banner with symbolic version / "
                         "SerialException; Serial() may raise; enumerator may find nothing; fresh and re-used connection object",
                         "gated helpers": "V answered by: banner with symbolic version / OK / Err line / nothing / banner without version"},
-              "thorough": {"version": "three components, all 8 combinations of 1-2 digits; every digit symbolic", "thresholds": ", ".join(THRESHOLDS),
+              "thorough": {"version": "three components, all 27 combinations of 1-3 digits; every digit symbolic", "thresholds": ", ".join(THRESHOLDS),
                            "handshake": "as quick", "gated helpers": "as quick"}}
     outside = ["banners containing 'EBB' but no 'Firmware Version ' in connect (EBB3.min_version then compares None: TypeError; not in the statement's list of replies)",
                "versions with more than three components, pre-release tags, epochs", "non-ASCII replies"]
@@ -79,8 +79,8 @@ class Check(CheckBase):
 
     def lens(self, tier):
         if tier == "quick":
-            return [(1, 1, 1), (1, 2, 1), (2, 1, 2)]
-        return list(itertools.product((1, 2), repeat=3))
+            return [(1, 1, 1), (1, 2, 1), (2, 1, 2), (1, 1, 3), (1, 3, 1)]
+        return list(itertools.product((1, 2, 3), repeat=3))
 
     def cases(self, tier):
         cs = []
@@ -91,6 +91,9 @@ class Check(CheckBase):
                 cs.append({"label": "min_version/ebb3/%s/%s" % (ls, thr), "kind": "mv", "layer": "ebb3", "lens": ln, "thr": thr})
             for g in GATES:
                 cs.append({"label": "gate/%s/%s/version" % (g, ls), "kind": "gate", "helper": g, "lens": ln, "vkind": "version"})
+                if ln in ((1, 1, 1), (1, 2, 1)):
+                    cs.append({"label": "gate/%s/%s/version/after-another-board-on-the-same-port" % (g, ls), "kind": "gate", "helper": g,
+                               "lens": ln, "vkind": "version", "prior": True})
             for pre in ("fresh", "reused"):
                 cs.append({"label": "connect/%s/%s" % (pre, ls), "kind": "connect", "lens": ln, "pre": pre})
         for g in GATES:
@@ -162,6 +165,17 @@ class Check(CheckBase):
                     port.queue.append(vreply)
             else:
                 legacy_conforming(port, payload)
+        if case.get("prior"):
+            # an up-to-date board was used earlier on the same device path (same .port), then unplugged
+            def on_write_new(port, payload):
+                if command_name(payload).upper() == "V":
+                    port.queue.append((BANNER + "2.8.1\r\n").encode("ascii"))
+                else:
+                    legacy_conforming(port, payload)
+            old = FakePort(on_write=on_write_new, sym=True)
+            for g_ in GATES:
+                self._call_gate(es, em, g_, old)
+            es.min_version(old, "2.6.0")
         port = FakePort(on_write=on_write, sym=True)
         try:
             if helper == "servo_timeout":
@@ -187,6 +201,19 @@ class Check(CheckBase):
             run.reach("gate:blocked-no-version")
             run.prove("gate/%s:nothing-sent-without-a-reported-version" % helper, z3.BoolVal(not sent), info={"written": names, "v_reply": vkind})
         run.prove("gate/%s:nothing-else-sent" % helper, z3.BoolVal(not extra), info={"written": names})
+
+    @staticmethod
+    def _call_gate(es, em, helper, port):
+        if helper == "servo_timeout":
+            em.servo_timeout(port, 60000, 1)
+        elif helper == "queryVoltage":
+            em.queryVoltage(port)
+        elif helper == "query_nickname":
+            es.query_nickname(port)
+        elif helper == "write_nickname":
+            es.write_nickname(port, "abc")
+        else:
+            es.reboot(port)
 
     def h_connect(self, run, case):
         pre = case["pre"]
@@ -322,6 +349,16 @@ class Check(CheckBase):
                         port.queue.append(vreply)
                 else:
                     legacy_conforming(port, payload)
+            if case.get("prior"):
+                def on_write_new(port, payload):
+                    if command_name(payload).upper() == "V":
+                        port.queue.append((BANNER + "2.8.1\r\n").encode("ascii"))
+                    else:
+                        legacy_conforming(port, payload)
+                old = FakePort(on_write=on_write_new)
+                for g_ in GATES:
+                    self._call_gate(es, em, g_, old)
+                es.min_version(old, "2.6.0")
             port = FakePort(on_write=on_write)
             try:
                 if helper == "servo_timeout":
